@@ -72,7 +72,7 @@ package nfs
 //@ specfunc txOpen(op *fstxn.FsTxn) = op != nil && opOpen(op) && cphase == 0 && dirtyInv() && allocInv()
 
 //@ define TXALLOC fstxn.FsTxn, alloctxn.AllocTxn, jrnl.Op, []uint64, map[uint64]*inode.Inode, cache.Cslot, inode.Inode, buf.Buf, marshal.Dec, marshal.Enc, cell:uint64, []uint8, addr.Addr
-//@ define TXMODS held, lastst, curop, freshinum, wroteinum, cphase, abits, dirtyinum, cache.Cslot.Obj, map[uint64]*inode.Inode
+//@ define TXMODS held, lastst, curop, freshinum, wroteinum, cphase, abits, dirtyinum, cache.Cslot.Obj, map[uint64]*inode.Inode, nfs.Nfs.stats
 //@ define SHRINKMODS muheld, inode.Inode.ShrinkSize, []uint64@inode.Inode.blks, []uint64@alloctxn.AllocTxn.freeBnums, alloctxn.AllocTxn.freeBnums, buf.Buf.dirty, []uint8@buf.Buf.Data, zeroed
 //@ define FILEMODS tailzeroedto, inode.Inode.Size, inode.Inode.ShrinkSize, inode.Inode.Atime, inode.Inode.Mtime, inode.Inode.Kind, inode.Inode.Nlink, inode.Inode.Gen, inode.Inode.Inum, inode.Inode.Dcache, []uint64@inode.Inode.blks, alloctxn.AllocTxn.allocBnums, []uint64@alloctxn.AllocTxn.allocBnums, alloctxn.AllocTxn.freeBnums, []uint64@alloctxn.AllocTxn.freeBnums, alloctxn.AllocTxn.allocInums, []uint64@alloctxn.AllocTxn.allocInums, alloctxn.AllocTxn.freeInums, []uint64@alloctxn.AllocTxn.freeInums, buf.Buf.dirty, []uint8@buf.Buf.Data, zeroed, nldec
 //@ define DIRMODS emptychecked, dcache.Dcache.Lastoff, nfstypes.Entry3, cell:*nfstypes.Entry3, nfstypes.Entryplus3, cell:*nfstypes.Entryplus3, map[string]dcache.Dentry, emitted, emitany, emitlast, lastcookie, lastfileid, lastname, lasthino, lasthgen, lastattrid
@@ -98,7 +98,7 @@ package nfs
 //@   props C01 C02 C03 C06 C08 C09 C10 C11 C14
 //@   requires rpcPre(nfs)
 //@   allocates fstxn.FsTxn, alloctxn.AllocTxn, jrnl.Op, []uint64, map[uint64]*inode.Inode, cache.Cslot, inode.Inode, buf.Buf, marshal.Dec, marshal.Enc, cell:uint64, []uint8, addr.Addr, nfstypes.GETATTR3res
-//@   modifies held, lastst, curop, freshinum, wroteinum, cphase, abits, dirtyinum, cache.Cslot.Obj, map[uint64]*inode.Inode
+//@   modifies held, lastst, curop, freshinum, wroteinum, cphase, abits, dirtyinum, cache.Cslot.Obj, map[uint64]*inode.Inode, nfs.Nfs.stats
 //@   ensures [R2-durable] result.Status == 0 ==> lastst == 1 @C01 @C07
 //@   ensures [A1-aborted] result.Status != 0 ==> lastst == 3 || lastst == 4 @C09
 //@   ensures [Fn6-status] result.Status == 0 || result.Status == 70 || result.Status == 10006 @C02
@@ -182,24 +182,34 @@ package nfs
 //@ spec (*Nfs).NFSPROC3_ACCESS(nfs, args)
 //@   props C02 C11
 //@   allocates nfstypes.ACCESS3res
+//@   requires nfs != nil
+//@   modifies nfs.Nfs.stats
 //@   ensures result.Status == 0
 //@ spec (*Nfs).NFSPROC3_MKNOD(nfs, args)
 //@   props C02 C11
 //@   allocates nfstypes.MKNOD3res
+//@   requires nfs != nil
+//@   modifies nfs.Nfs.stats
 //@   ensures [Fn6-notsupp] result.Status == 10004 @C02
 //@ spec (*Nfs).NFSPROC3_LINK(nfs, args)
 //@   props C02 C11
 //@   allocates nfstypes.LINK3res
+//@   requires nfs != nil
+//@   modifies nfs.Nfs.stats
 //@   ensures [Fn6-notsupp] result.Status == 10004 @C02
 //@ spec (*Nfs).NFSPROC3_FSSTAT(nfs, args)
 //@   props C02 C11
 //@   allocates nfstypes.FSSTAT3res
+//@   requires nfs != nil
+//@   modifies nfs.Nfs.stats
 //@   ensures [Fn6-notsupp] result.Status == 10004 @C02
 
 // Q1-Q3 (C19): the announced limits are the constants the guards enforce.
 //@ spec (*Nfs).NFSPROC3_PATHCONF(nfs, args)
 //@   props C19 C02 C11
 //@   allocates nfstypes.PATHCONF3res
+//@   requires nfs != nil
+//@   modifies nfs.Nfs.stats
 //@   ensures [Q1-namemax] result.Status == 0 && result.Resok.Name_max == 112 && result.Resok.No_trunc @C19
 //@ spec (*Nfs).NFSPROC3_FSINFO(nfs, args)
 //@   props C19 C01 C02 C03 C06 C09 C11
